@@ -140,7 +140,7 @@ MANIFEST_TEXT = {
     },
     "C20": {
         "technique": "generated concurrent API workloads under the Go race detector",
-        "level_text": "The simulator's snapshot-, membership- and lifecycle-heavy schedules are combined with generated workloads of 4-32 goroutines calling the public API concurrently, on a binary built with -race and running on all cores; every race-detector report is parsed, de-duplicated by the pair of source locations and attributed to the library or to the harness. Second engine: generated real-time workloads (2-6 client goroutines, snapshot threshold 3-25, payloads 0 B-5 KB, a node added and a follower stopped/started half-way) on 2-3 nodes that talk through the bundled gRPC transport, so that the request conversion code, which runs outside the node's mutex and which the simulator replaces, is executed under the detector too (quick: 2 cases per shard, thorough: 25). A sampling claim: only executed interleavings are seen.",
+        "level_text": "The simulator's snapshot-, membership- and lifecycle-heavy schedules are combined with generated workloads of 4-32 goroutines calling the public API concurrently, on a binary built with -race and running on all cores; every race-detector report is parsed, de-duplicated by the pair of source locations and attributed to the library or to the harness. Second engine: generated real-time workloads (2-6 client goroutines, snapshot threshold 3-25, payloads 0 B-5 KB, a node added and a follower stopped/started half-way) on 2-3 nodes that talk through the bundled gRPC transport, so that the request conversion code, which runs outside the node's mutex and which the simulator replaces, is executed under the detector too (quick: 3 cases per shard, thorough: 25). A sampling claim: only executed interleavings are seen.",
         "level_note": "Trusted: the race detector; the attribution rule (both first non-runtime frames inside the library); the harness itself must be race-free (any report touching harness code makes the run inconclusive rather than a verdict).",
     },
     "C19": {
